@@ -47,6 +47,21 @@ class OptionsEval:
             return self.consts_of(e.args[0], depth + 1)
         if isinstance(e, ast.Call) and isinstance(e.func, ast.Attribute) and e.func.attr == "keys" and not e.args:
             return self.consts_of(e.func.value, depth + 1)
+        if isinstance(e, ast.Call) and isinstance(e.func, ast.Attribute) and e.func.attr == "values" and not e.args:
+            d = e.func.value
+            for _ in range(4):
+                if isinstance(d, ast.Dict):
+                    vs = [const_str(v) for v in d.values]
+                    return None if any(v is None for v in vs) else vs
+                nxt = None
+                if isinstance(d, ast.Name):
+                    nxt = M.single_value(d.id) or (self.C.draw.module.constants.get(d.id) if not M.binds.get(d.id) else None)
+                elif isinstance(d, ast.Attribute) and isinstance(d.value, ast.Name) and self.C.draw.cls is not None:
+                    nxt = next((c.class_attrs[d.attr] for c in self.C.repo.mro(self.C.draw.cls) if d.attr in c.class_attrs), None)
+                if nxt is None:
+                    return None
+                d = nxt
+            return None
         if isinstance(e, ast.Name):
             v = M.single_value(e.id)
             if v is not None:
